@@ -47,6 +47,46 @@ func OtherTarget(r *vf.Run) {
 	r.SetExtra("goarch_386", "whole monitor repeated in a GOARCH=386 build (made with go1.26.8 where installed) with GOGC=10 and GOMAXPROCS=12")
 }
 
+// ThirdTarget runs the portable probe (initprobe/, built for js/wasm by ./check and executed by node)
+// for the area this property lives in: a build target that is neither amd64 nor 386.
+func ThirdTarget(r *vf.Run) {
+	cmdline := strings.Fields(os.Getenv("VERIF_WASM_PROBE"))
+	if len(cmdline) < 2 || os.Getenv("VERIF_CHILD") != "" || r.OnlyPhase != "" {
+		return
+	}
+	area := map[string]string{"C01": "cpu", "C02": "cpu", "C08": "cpu", "C12": "cpu", "C14": "cpu", "C03": "emitter", "C06": "emitter", "C07": "emitter",
+		"C15": "emitter", "C16": "emitter", "C19": "emitter", "C04": "mappers", "C05": "mappers", "C09": "header", "C10": "rom", "C11": "bus", "C13": "bus", "C17": "colour"}[r.ID]
+	if area == "" {
+		return
+	}
+	b, err := exec.Command(cmdline[0], append(cmdline[1:], area)...).CombinedOutput()
+	r.Eval(1)
+	out := string(b)
+	code := 0
+	if ee, ok := err.(*exec.ExitError); ok {
+		code = ee.ExitCode()
+	} else if err != nil {
+		r.SetExtra("js_wasm_probe", "did not start: "+err.Error())
+		return
+	}
+	first := ""
+	for _, ln := range strings.Split(out, "\n") {
+		if strings.HasPrefix(ln, "probe-violation") || strings.HasPrefix(ln, "panic:") {
+			first = ln
+			break
+		}
+	}
+	switch {
+	case code == 0:
+		r.Cell("third-target:js-wasm:" + area)
+		r.SetExtra("js_wasm_probe", strings.TrimSpace(out))
+	case first != "":
+		r.Fail("on-js-wasm-target", "built for js/wasm (neither amd64 nor 386): "+first, map[string]string{"area": area})
+	default:
+		r.SetExtra("js_wasm_probe", fmt.Sprintf("exit %d without a finding: %.200s", code, out))
+	}
+}
+
 // ErrorsFirstChild: for the monitors that are cheap enough, one more child on the native target whose
 // first use of the library is ErrorsFirst (the 386 child of every monitor starts that way as well).
 func ErrorsFirstChild(r *vf.Run) {
